@@ -315,17 +315,27 @@ def run(chk, repo):
     ok = len(sb) == 1 and isinstance(sb[0], ast.With) and unparse(sb[0].items[0].context_expr) == "self.lock"
     chk.decide(ok, "C17.stop", W("AudioThread.stop"), "stop() runs under the thread's lock", why="control calls are serialised", node=stop)
     body = sb[0].body if ok else sb
-    sets_halting = any(unparse(s) == "self.halting = True" for s in body)
+    def raises_flag(s):
+        # 'self.halting = True', possibly under 'if not self.halting:' (the other arm means it is up already)
+        if unparse(s) == "self.halting = True":
+            return True
+        return isinstance(s, ast.If) and unparse(s.test) in ("not self.halting", "self.halting is False", "self.halting == False") \
+            and any(raises_flag(x) for x in s.body)
+    sets_halting = any(raises_flag(s) for s in body)
     go_ops = [unparse(s.value.func).split(".")[-1] for s in body if isinstance(s, ast.Expr) and isinstance(s.value, ast.Call)
               and unparse(s.value.func) in ("self.go.set", "self.go.clear")]
     go_after = go_ops[-1] if go_ops else None        # None: unchanged
     chk.decide(sets_halting, "C17.stop", W("AudioThread.stop"), "raises the halting flag", why="the stop message is never sent", node=stop)
     # ... on every path, whatever the flags are when stop() is called (a second stop() after a pause() has to wake the
     # thread again: the halting flag and the go event are independent)
-    early = [n for n in ast.walk(stop) if isinstance(n, (ast.Return, ast.Raise))]
+    sets_ = [n for n in ast.walk(stop) if isinstance(n, ast.Expr) and unparse(n.value) == "self.go.set()"]
+    first_set = min([(n.lineno, n.col_offset) for n in sets_] or [(10 ** 9, 0)])
+    # an exit before the event is set / the event set under a condition (a guard on the flag alone is harmless)
+    early = [n for n in ast.walk(stop) if isinstance(n, (ast.Return, ast.Raise)) and (n.lineno, n.col_offset) < first_set]
     guarded_ops = [n for n in ast.walk(stop) if isinstance(n, ast.If) and any(
-        unparse(x) in ("self.halting = True", "self.go.set()") for b_ in (n.body + n.orelse) for x in ast.walk(b_)
-        if isinstance(x, (ast.Assign, ast.Expr)))]
+        unparse(x) == "self.go.set()" for b_ in (n.body + n.orelse) for x in ast.walk(b_) if isinstance(x, ast.Expr))
+        and not (n.orelse and all(any(unparse(x) == "self.go.set()" for y in arm for x in ast.walk(y) if isinstance(x, ast.Expr))
+                                  for arm in (n.body, n.orelse)))]
     chk.decide(not early and not guarded_ops and "set" in go_ops, "C17.stop", W("AudioThread.stop"),
                "the flag is raised and the event set unconditionally (%d early exits, %d guards)" % (len(early), len(guarded_ops)),
                why="a stop() that returns early / is guarded (e.g. 'if self.halting: return') no longer sets the go event: "
